@@ -127,7 +127,10 @@ def classify_names(ck, st, items, names):
                     sf = dict(st.extra.get("sfacts") or {})
                     sf[it.namevar.decl().name()] = ("eq", cand[0])
                     st.extra["sfacts"] = sf
-                    it.cls = cand[0]
+                    found = cand[0]
+                    # the path never converted this item (it did not recognise the name): complete it with a convertible value
+                    for prefix in ("conv", "convw"):
+                        st.decisions.setdefault("%s(%s)#d" % (prefix, it.meta), 0)
                     ck.reach("split-leaf")
                 else:
                     ck.engine("leaf is not uniform in the class of item %s" % it.base)
